@@ -6,6 +6,7 @@
 -/
 import Qfx.Lemmas.CodecScan
 import Qfx.Lemmas.CodecOps
+import Qfx.Lemmas.CodecParseD
 open Qfx Qfx.Spec
 
 /-- "tag order list vs tag lookup map: two views of the same field set that must stay in step" —
@@ -229,6 +230,33 @@ theorem C10_parse_build (fx : Fixes) (ops : List MOp) (hp : ∀ op ∈ ops, op.p
       · have e : tv :: t9 :: t35 :: (pre ++ [t10]) = (tv :: t9 :: t35 :: pre) ++ [t10] := by simp
         rw [e, List.getLast?_append]; simp [hwm.tag10]
 
+/-- the same through a parser WITH dictionaries (transport and/or application) that define no repeating group (`NoGroupTag` for every
+    tag) and do not list CheckSum as a header field: parsing the bytes of `build` yields exactly the written TagValue list. -/
+theorem C10_parse_build_dict_nogroups (fx : Fixes) (d : Dicts) (hng : ∀ t, NoGroupTag d t) (hh10 : isHeaderField d 10 = false)
+    (ops : List MOp) (hp : ∀ op ∈ ops, op.proper ∧ op.wire) (m : Message)
+    (hrun : runMOps ops Message.new = .ok m)
+    (h8 : (alFind m.header.lookup 8).isSome = true) (h35 : (alFind m.header.lookup 35).isSome = true)
+    (bytes : Bytes) (m' : Message) (hbuild : m.build Fixes.cur = .ok (bytes, m')) (hsmall : bytes.length < 9223372036854775808) :
+    ∃ (L : List TagValue) (p : Message), bytes = wireOf L ∧ parseMessage fx d bytes = .ok p ∧ p.fields = L ∧
+      p.bytes fx = .ok (bytes, p) := by
+  obtain ⟨hb, hw⟩ := runMOps_wired ops _ m Built.new Wired.new hp hrun
+  cases hf8 : alFind m.header.lookup 8 with
+  | none => rw [hf8] at h8; cases h8
+  | some f8 =>
+    cases hf35 : alFind m.header.lookup 35 with
+    | none => rw [hf35] at h35; cases h35
+    | some f35 =>
+      obtain ⟨l, hl⟩ := hb.ph.owned 8 f8 hf8
+      subst hl
+      obtain ⟨tv, rest, hl, ht⟩ := hb.ph.head 8 l hf8
+      subst hl
+      have hone := (hb.ph.special 8 _ hf8 tv (by simp) (Or.inl ht)).1
+      rw [hone] at hf8
+      obtain ⟨t9, t35, pre, t10, hbytes, hwm, hbl⟩ := build_wire m hb hw tv f35 hf8 hf35 bytes m' hbuild hsmall
+      refine ⟨tv :: t9 :: t35 :: (pre ++ [t10]), ndMessageD d tv t9 t35 pre t10, hbytes, ?_, rfl, ?_⟩
+      · rw [hbytes]; exact parse_wire_D fx tv t9 t35 pre t10 hwm hbl (fun tv _ => hng tv.tag) (hng 10) hh10
+      · rw [hbytes]; rfl
+
 /-- THE MONITOR'S OWN PREDICATE.  The independent tag=value scanner of `Qfx.Spec.Codec` (the one the monitor runs on the
     implementation's output) reads every built message back as exactly the list of TagValues that was written, and its
     well-formedness predicate `wireWF` — 8, 9, 35 first; a single 10, last; no further 8 / 9; BodyLength = bytes between the
@@ -329,7 +357,7 @@ example : ∃ m, runFOps [.set (TagValue.init 58 [97]), .remove 58, .set (TagVal
    "header before body before trailer"                             C10_build_sections, C10_message_invariant
    "CheckSum last"                                                 C10_build_wf (bytes); C10_trailer_checksum_last
    "BodyLength equals the byte count … CheckSum equals the sum"    C10_build_wf (bytes); C10_length_total_accounting, C10_cook_values
-   "Parsing those bytes yields the same fields and values"         C10_parse_build (no dictionary; monitor clauses reparse_ok / reparse_same_fields for all modes)
+   "Parsing those bytes yields the same fields and values"         C10_parse_build (no dictionary), C10_parse_build_dict_nogroups (dictionaries without groups); monitor clauses reparse_ok / reparse_same_fields for all modes
    "a copied message serialises identically to its source"         C10_copy_identical (message level), C10_copy_writes_same,
                                                                    C10_copy_length_total_same (section level, also parsed sources)
    scanner-level well-formedness of the whole output               C10_build_scans_wf (wireWF, scan = written fields); relative to Abs: C10_build_wf_full
